@@ -278,6 +278,7 @@ theorem C04_no_admission_until_ack_full_false : ¬ C04_no_admission_until_ack_fu
   revert this
   decide
 
+set_option maxRecDepth 4096 in
 /-- the states of the counterexample, spelled out -/
 example :
     let k1 := (flush (run (start 9 0 0) frOps1) true 1000).k
